@@ -245,7 +245,7 @@ async fn run_history(max_sessions: usize, evs: &[Ev], settle: Duration, ev: &mut
 pub fn run(args: &Args) -> i32 {
     let started = Instant::now();
     let seed = args.seed;
-    let histories = args.tier.pick(120u64, 3000);
+    let histories = args.tier.pick(360u64, 6000);
     let rt = tokio::runtime::Builder::new_multi_thread().worker_threads(8).enable_all().build().unwrap();
     let mut ev = Evidence::new();
     let only: Option<u64> = args.replay.as_ref().and_then(|p| {
@@ -322,9 +322,9 @@ pub fn run(args: &Args) -> i32 {
         ],
         exhaustive: None,
         floors: vec![
-            ("events".into(), args.tier.pick(1_000, 30_000)),
-            ("evictions_observed".into(), args.tier.pick(50, 1_000)),
-            ("sessions_closed_on_shutdown".into(), args.tier.pick(50, 1_000)),
+            ("events".into(), args.tier.pick(3_000, 60_000)),
+            ("evictions_observed".into(), args.tier.pick(150, 2_000)),
+            ("sessions_closed_on_shutdown".into(), args.tier.pick(150, 2_000)),
         ],
         min_classes: 10,
     };
